@@ -251,8 +251,8 @@ Proof.
   intros HR. unfold clause_update.
   pose proof HR as [c [Hc [HI [Ht [Hot [Hl Ho]]]]]].
   destruct t as [tv|].
-  - destruct (0 <? tv) eqn:Etv.
-    + rewrite Hc. unfold contains_conflicting_clauses.
+  - rewrite Hc. destruct (0 <? tv) eqn:Etv.
+    + unfold contains_conflicting_clauses.
       rewrite (uses_above_set (Z.to_nat tv) _ _ (inv_cur _ _ _ HI)).
       destruct (uses_above (Z.to_nat tv) (m_cs m)) eqn:Ec.
       * unfold update_ok. split; [|reflexivity]. rewrite accepts_unfold, Etv, Ec. reflexivity.
